@@ -1,6 +1,9 @@
-(* C18 — property theorems only.  Proofs are in C18/Proofs.v, C18/ProofsService.v, C18/ProofsDto.v. *)
-From Coq Require Import List NArith Bool.
-From DV Require Import C17.Model C17.Proofs C18.Model C18.Proofs C18.Service C18.ProofsService C18.Dto C18.ProofsDto C18.Wire C18.ProofsWire.
+(* C18 — property theorems only.  Proofs are in C18/Proofs.v, C18/ProofsService.v, C18/ProofsDto.v, C18/ProofsSpec.v,
+   C18/ProofsWire.v, C18/ProofsWireBack.v, C18/LinkC07.v. *)
+From Coq Require Import List NArith ZArith Bool.
+From DV Require Base.Dec C07.Model C07.Reader.
+From DV Require Import C17.Model C17.Proofs C17.Abstract C17.AbstractProofs C18.Model C18.Proofs C18.Service C18.ProofsService C18.Dto C18.ProofsDto C18.Wire C18.ProofsWire
+  C18.Spec C18.ProofsSpec C18.WireBack C18.ProofsWireBack C18.LinkC07.
 Import ListNotations.
 Open Scope N_scope.
 
@@ -28,7 +31,67 @@ Proof. exact parse_number_render. Qed.
 Theorem C18_compact_roundtrip : forall v, wf v = true -> plain v = true -> json_decode (compact v) = Some v.
 Proof. exact compact_roundtrip. Qed.
 
-(* (ii) the service is the workspace state machine *)
+(* (ii) the service against its SPECIFICATION (C18/Spec.v): a relation between a request, the abstract workspace of C17
+   (a set of stored documents and a served relation, C17/Abstract.v) before and after, and the class of the answer (which
+   member is present, what the data denotes).  It is written without the handler model: no ImplModel state, no reply. *)
+Theorem C18_serve_refines_spec : forall qs,
+  spec_serves aempty qs (abs (fst (serve_all replace_fixed init qs))) (map class_of (snd (serve_all replace_fixed init qs))).
+Proof. exact serve_refines_spec. Qed.
+
+Theorem C18_serve_step_refines_spec : forall s q, Inv s ->
+  spec_serve (abs s) q (abs (fst (serve replace_fixed s q))) (class_of (snd (serve replace_fixed s q))).
+Proof. exact serve_step_refines_spec. Qed.
+
+(* the specification determines the classes and the abstract workspace: those of the handler model are the only ones it allows *)
+Theorem C18_spec_deterministic : forall a q a1 c1 a2 c2, AInv a ->
+  spec_serve a q a1 c1 -> spec_serve a q a2 c2 -> aeq a1 a2 /\ c1 = c2.
+Proof. exact spec_serve_deterministic. Qed.
+
+Theorem C18_serve_refines_spec_unique : forall qs a cs, spec_serves aempty qs a cs ->
+  aeq a (abs (fst (serve_all replace_fixed init qs))) /\ cs = map class_of (snd (serve_all replace_fixed init qs)).
+Proof. exact serve_refines_spec_unique. Qed.
+
+(* what the specification says about failures: an answer with the errors member leaves the workspace as it was; errors are
+   answered exactly to a request that asks for nothing, an add whose namespace or name is taken, an evaluation of a name that
+   is not served; requests that ask for nothing neither change the state nor the answers to the requests that follow *)
+Theorem C18_spec_errors_leave_state : forall a q a', spec_serve a q a' CErrors -> aeq a a'.
+Proof. exact spec_errors_leave_state. Qed.
+
+Theorem C18_spec_errors_iff : forall a q a' c, spec_serve a q a' c ->
+  (c = CErrors <->
+   (forall o, ~ asks q o) \/ (exists m, asks q (Add m) /\ ~ free a m) \/ (exists k, asks q (Eval k) /\ forall d, ~ served a k d)).
+Proof. exact spec_errors_iff. Qed.
+
+Theorem C18_spec_faults_do_not_disturb : forall pre bad post a cs a0 b cs0, AInv a0 ->
+  Forall (fun q => forall o, ~ asks q o) bad ->
+  spec_serves a0 (pre ++ bad ++ post) a cs -> spec_serves a0 (pre ++ post) b cs0 ->
+  aeq a b /\
+  exists cs1 cbad cs2, cs = cs1 ++ cbad ++ cs2 /\ cs0 = cs1 ++ cs2 /\ Forall (fun c => c = CErrors) cbad /\ length cbad = length bad.
+Proof. exact spec_faults_do_not_disturb. Qed.
+
+(* every answer to every request sequence is a well-formed JSON document with exactly the member its class prescribes;
+   the data of an evaluation decodes to the value the SERVED DOCUMENT computes *)
+Theorem C18_answers_reflect_workspace : forall (txt : N -> text) (msg : err -> text) (result : N -> value),
+  (forall n, wf_text (txt n) = true) -> (forall e, wf_text (msg e) = true) -> (forall d, wf (result d) = true) ->
+  forall qs, exists a cs, spec_serves aempty qs a cs /\
+    Forall2 (fun r c => exists j, json_parse (body txt msg result r) = Some (JObj [(member_of c, j)]) /\
+               (forall d, c = CData (DEvaluation d) -> decode j = Some (strip (result d))) /\
+               (forall n k, c = CData (DAdded n k) -> j = JObj [(k_namespace, JStr (txt n)); (k_name, JStr (txt k))]) /\
+               (forall s, c = CData (DStatus s) -> j = JObj [(k_status, JStr (txt s))]) /\
+               (c = CErrors -> exists e, j = JArr [JObj [(k_details, JStr (msg e))]]))
+            (snd (serve_all replace_fixed init qs)) cs.
+Proof. exact answers_reflect_workspace. Qed.
+
+Example C18_spec_nonvacuous :
+  map class_of (snd (serve_all replace_fixed init
+     [QAdd (CModel mA); QAdd CBadBase64; QAdd (CModel mA); QDeploy; QEvaluate 11 true; QReplace (CModel mA'); QRejected;
+      QEvaluate 11 true; QDeploy; QTck (Some 11) true (Some true); QRemove (Some 1) (Some 99); QDeploy; QEvaluate 11 true]))
+  = [CData (DAdded 1 11); CErrors; CErrors; CData (DStatus 4); CData (DEvaluation 101); CData (DStatus 2); CErrors;
+     CErrors; CData (DStatus 4); CData (DEvaluation 105); CData (DStatus 3); CData (DStatus 4); CErrors].
+Proof. exact spec_nonvacuous. Qed.
+
+(* the handler model is the workspace state machine of C17 (ImplModel level; serve_by_op / reports are the handler table in
+   three pieces, kept as a lemma about serve, not as its specification) *)
 Theorem C18_service_refines_workspace : forall qs,
   fst (serve_all replace_fixed init qs) = fst (run remove init (ops_of qs)) /\
   snd (serve_all replace_fixed init qs) = reports qs (snd (arun ainit (ops_of qs))) /\
@@ -57,8 +120,8 @@ Theorem C18_replace_substitutes : forall qs m, let s := fst (serve_all replace_f
       by_ns := ns m :: by_ns (remove s (ns m) (nm m)); by_nm := nm m :: by_nm (remove s (ns m) (nm m)); evs := [] |}, RStatus 2).
 Proof. exact replace_substitutes. Qed.
 
-Theorem C18_evaluate_iff_deployed : forall s k,
-  snd (serve replace_fixed s (QEvaluate k true)) = RValue k <-> mem k (evs s) = true.
+Theorem C18_evaluate_iff_deployed : forall s k d,
+  snd (serve replace_fixed s (QEvaluate k true)) = RValue k d <-> lookup k (evs s) = Some d.
 Proof. exact evaluate_iff_deployed. Qed.
 
 (* every answer of the service is a well-formed JSON document: failures in the errors member, results in the data member,
@@ -67,7 +130,7 @@ Theorem C18_every_answer_wellformed : forall (txt : N -> text) (msg : err -> tex
   (forall n, wf_text (txt n) = true) -> (forall e, wf_text (msg e) = true) -> (forall k, wf (result k) = true) ->
   forall r, exists j,
     json_parse (body txt msg result r) = Some (JObj [(if is_err r then k_errors else k_data, j)]) /\
-    (forall k, r = RValue k -> decode j = Some (strip (result k))) /\
+    (forall k d, r = RValue k d -> decode j = Some (strip (result d))) /\
     (forall e, r = RErr e -> j = JArr [JObj [(k_details, JStr (msg e))]]).
 Proof. exact every_answer_wellformed. Qed.
 
@@ -80,14 +143,65 @@ Theorem C18_tck_roundtrip : forall (tyname : N -> text) (parse_simple : text -> 
   forall v, tck_value v = true -> ok ok_leaf ok_key v -> from_dto parse_simple parse_name (to_dto tyname v) = Some v.
 Proof. exact tck_roundtrip. Qed.
 
-(* the same with the concrete type names (xsd:string, xsd:decimal, ...), the concrete readers (strings as they are, numbers in plain
-   notation through the strict number reader, booleans, temporal leaves keeping their text, xsd:duration split by its day/time part)
-   and keys kept as they are: the premises for strings, numbers and booleans are discharged, those for temporal leaves reduce to
-   "the text names the kind" (their lexical forms are C14's subject).  to_dto0 / from_dto0 / tck_body are the functions the
+(* the same with the concrete type names (xsd:string, xsd:decimal, ...) and the leaf readers of the model: strings as they are,
+   numbers in plain notation through the strict number reader (read_decimal: the digits come back, C18_tck_number_leaf_c07 ties
+   them to C07), booleans (true / false / 1 / 0).  Two readers are NOT transliterations: a temporal leaf is kept as its text
+   (VOther kind text: the model does not parse dates; their lexical forms are C14's subject; xsd:duration is split by its
+   day/time part) and a component name is kept as it is (parse_name0 = Some: the model does not run the FEEL name parser, so
+   the statement holds for names that parser returns unchanged — checked against the service by the correspondence only).  to_dto0 / from_dto0 / tck_body are the functions the
    correspondence check evaluates against the answers of /tck/evaluate. *)
 Theorem C18_tck_roundtrip_concrete : forall v, tck_value v = true -> ok (fun x => leaf_ok x = true) (fun _ => True) v ->
   from_dto0 (to_dto0 v) = Some v.
 Proof. exact tck_roundtrip0. Qed.
+
+(* the SUCCESS body of /tck/evaluate, {"data":{"value":<ValueDto>}}: well-formed for every value with well-formed texts;
+   strictly parsed it is an object with exactly the member data holding an object with exactly the member value holding the
+   ValueDto tree (all three members simple / components / list written, absent ones null) *)
+Theorem C18_tck_success_body : forall v, wf v = true ->
+  json_parse (tck_body v) = Some (JObj [(k_data, JObj [(k_value, to_json (dto_value (to_dto0 v)))])]) /\
+  json_decode (tck_body v) = Some (VCtx [(k_data, VCtx [(k_value, dto_value (to_dto0 v))])]).
+Proof. exact tck_success_body. Qed.
+
+(* the ValueDto tree read back member by member is the DTO *)
+Theorem C18_tck_value_dto_back : forall v, value_dto (dto_value (to_dto0 v)) = Some (to_dto0 v).
+Proof. exact value_dto_back. Qed.
+
+(* the whole way: value -> DTO -> JSON text of the answer -> strict parse -> DTO -> value (strings through the JSON escapes,
+   numbers through their plain text, names kept) gives the value back.  Premises, all visible: well-formed texts, contexts
+   keyed in increasing order and kinds that have a TCK form (tck_value), numbers in plain notation without superfluous
+   zeros and durations whose text tells their kind (leaf_ok); temporal leaves are their TEXT (their lexical forms: C14) *)
+Theorem C18_tck_wire_roundtrip : forall v, wf v = true -> tck_value v = true -> ok (fun x => leaf_ok x = true) (fun _ => True) v ->
+  read_tck_answer (tck_body v) = Some v.
+Proof. exact tck_wire_roundtrip. Qed.
+
+Example C18_tck_wire_back_nonvacuous :
+  let v := VCtx [([97], VList [VNum {| nneg := true; nint := [1; 0]; nfrac := [5; 0] |}; VStr [34; 92; 10; 128512]; VNull; VBool false; VList []]);
+                 ([98; 32; 98], VOther 5 [80; 84; 49; 83]); ([99], VCtx [])] in
+  wf v = true /\ tck_value v = true /\ read_tck_answer (tck_body v) = Some v /\
+  read_tck_answer (tck_body (VNum {| nneg := false; nint := [0; 1]; nfrac := [] |})) = None.
+Proof. exact tck_wire_back_nonvacuous. Qed.
+
+(* the number leaf and C07: the text Display writes for a decimal128 datum (C07.Model.print) is the rendering of a well-formed
+   C18 number; the TCK leaf carries that text under xsd:decimal; the leaf reader of the model gives the same digits back and
+   FeelNumber::from_str (C07.Reader.from_plain) a datum of equal value and sign *)
+Theorem C18_json_text_is_num : forall s, C07.Model.is_json s = true ->
+  wf_num (num_of s) = true /\ render_num (num_of s) = map code s.
+Proof. exact json_text_is_num. Qed.
+
+Theorem C18_tck_number_leaf_c07 : forall d : Base.Dec.dec, Base.Dec.in_format d = true ->
+  exists s n d',
+    C07.Model.print d = Some s /\ wf_num n = true /\ render_num n = map code s /\
+    to_dto0 (VNum n) = DSimple (Some ty_decimal) (Some (map code s)) false /\
+    from_dto0 (to_dto0 (VNum n)) = Some (VNum n) /\
+    C07.Reader.from_plain s = Some d' /\ Base.Dec.veq d' d /\ Base.Dec.neg d' = Base.Dec.neg d.
+Proof. exact tck_number_leaf_c07. Qed.
+
+Example C18_number_leaf_nonvacuous :
+  C07.Model.print (Base.Dec.mkdec true 12345 (-2)) = Some t_m12345 /\
+  num_of t_m12345 = {| nneg := true; nint := [1; 2; 3]; nfrac := [4; 5] |} /\
+  render_num (num_of t_m12345) = [45; 49; 50; 51; 46; 52; 53] /\
+  parse_simple0 ty_decimal (map code t_m12345) = Some (VNum (num_of t_m12345)).
+Proof. exact number_leaf_nonvacuous. Qed.
 
 Example C18_tck_wire_nonvacuous :
   let v := VCtx [([97], VList [VNum {| nneg := true; nint := [1; 0]; nfrac := [5; 0] |}; VStr [34; 92; 10]; VNull; VBool false]);
@@ -106,8 +220,8 @@ Theorem C18_jsonify_orig_refuted :
 Proof. exact jsonify_orig_refuted. Qed.
 
 Theorem C18_body_orig_refuted :
-  json_parse (body_orig (fun _ => []) (fun _ => []) (fun _ => v_john) (RValue 0)) = None /\
-  json_parse (body (fun _ => []) (fun _ => []) (fun _ => v_john) (RValue 0)) = Some (JObj [(k_data, to_json v_john)]).
+  json_parse (body_orig (fun _ => []) (fun _ => []) (fun _ => v_john) (RValue 0 0)) = None /\
+  json_parse (body (fun _ => []) (fun _ => []) (fun _ => v_john) (RValue 0 0)) = Some (JObj [(k_data, to_json v_john)]).
 Proof. exact body_orig_refuted. Qed.
 
 Theorem C18_replace_orig_refuted : exists qs,
@@ -123,7 +237,7 @@ Proof. exact roundtrip_nonvacuous. Qed.
 Example C18_service_nonvacuous :
   serve_all replace_fixed init [QAdd (CModel mA); QAdd CBadBase64; QReplace (CModel mA); QRejected; QDeploy; QEvaluate 11 true; QEvaluate 12 true; QEvaluate 11 false]
   = (fst (run remove init [Add mA; Replace mA; Deploy]),
-     [RAdded 1 11; RErr EBase64; RStatus 2; RErr EBadRequest; RStatus 4; RValue 11; RErr ENotDeployed; RErr EInput]).
+     [RAdded 1 11; RErr EBase64; RStatus 2; RErr EBadRequest; RStatus 4; RValue 11 101; RErr ENotDeployed; RErr EInput]).
 Proof. exact service_nonvacuous. Qed.
 
 Print Assumptions C18_json_roundtrip.
@@ -146,3 +260,19 @@ Print Assumptions C18_body_orig_refuted.
 Print Assumptions C18_replace_orig_refuted.
 Print Assumptions C18_nonvacuous.
 Print Assumptions C18_service_nonvacuous.
+Print Assumptions C18_serve_refines_spec.
+Print Assumptions C18_serve_step_refines_spec.
+Print Assumptions C18_spec_deterministic.
+Print Assumptions C18_serve_refines_spec_unique.
+Print Assumptions C18_spec_errors_leave_state.
+Print Assumptions C18_spec_errors_iff.
+Print Assumptions C18_spec_faults_do_not_disturb.
+Print Assumptions C18_answers_reflect_workspace.
+Print Assumptions C18_spec_nonvacuous.
+Print Assumptions C18_tck_success_body.
+Print Assumptions C18_tck_value_dto_back.
+Print Assumptions C18_tck_wire_roundtrip.
+Print Assumptions C18_tck_wire_back_nonvacuous.
+Print Assumptions C18_json_text_is_num.
+Print Assumptions C18_tck_number_leaf_c07.
+Print Assumptions C18_number_leaf_nonvacuous.
